@@ -190,10 +190,63 @@ def observe(P, res, key, collect_events=True, units=None):
             out.append({'id': a.id, 'name': a.name,
                         'total': float(a.pressure_drop), 'parts': parts,
                         'regions': regs, 'flow': float(a.flow_rate)})
+        check_table(res, r, key)
         res.check('DP1_increments_nonnegative', incs['neg'] == 0,
                   '%d negative pressure-drop increments' % incs['neg'], key)
         res.count('dp_increments_seen', incs['n'])
         return out, float(np.max(r.dz)), float(r.req_dz), list(r.z)
+
+
+def check_table(res, r, key):
+    """The pressure-drop table of the output file: every row shows the
+    values of its own assembly (total, friction, spacer grids, gravity, per
+    region; a dash where there is none) and the parts add up."""
+    import re
+    n_regions = max(len(a.region) for a in r.assemblies)
+    with drive.quiet():
+        txt = dassh.table.PressureDropTable(n_regions).generate(r)
+    rows = [re.sub(r'\(\s*\d+,\s*\d+\)', 'LOC', ln).split()
+            for ln in txt.splitlines() if re.match(r'^\s*\d+\s', ln)]
+
+    def num(x):
+        return 0.0 if x == '---' else float(x) * 1e6
+    for i, a in enumerate(r.assemblies):
+        row = [x for x in rows if int(x[0]) == i + 1]
+        if len(row) != 1:
+            res.check('DP6_table_row', False, 'assembly %d has %d rows in '
+                      'the pressure-drop table' % (i + 1, len(row)), key)
+            continue
+        x = row[0]
+        tot, fr, sg, gr = x[3], x[4], x[5], x[6]
+        regs = x[7:7 + len(a.region)]
+        want_sg = sum(float(g._pressure_drop.get('spacer_grid', 0.0))
+                      for g in a.region)
+        want_fr = sum(float(g._pressure_drop['friction']) for g in a.region)
+        want_gr = sum(float(g._pressure_drop['gravity']) for g in a.region)
+        scale = abs(float(a.pressure_drop)) + 1e-9
+
+        def near(got, want):
+            return abs(got - want) <= 6e-5 * scale
+        ok = near(num(tot), float(a.pressure_drop))
+        if a.has_rodded:
+            ok = ok and near(num(fr), want_fr) and near(num(sg), want_sg) \
+                and near(num(gr), want_gr) and (sg == '---') == (
+                    want_sg == 0.0) and near(num(fr) + num(sg) + num(gr),
+                                             num(tot) if r._options[
+                                                 'include_gravity'] else
+                                             num(tot) - want_gr + num(gr))
+        ok = ok and len(regs) == len(a.region) and all(
+            near(num(v), float(g.pressure_drop))
+            for v, g in zip(regs, a.region)) and near(
+                sum(num(v) for v in regs), num(tot))
+        res.check('DP6_table_row', bool(ok),
+                  'pressure-drop table row of assembly %d (%s) disagrees '
+                  'with its own values or does not add up: %r; total %.6e, '
+                  'friction %.6e, grids %.6e, gravity %.6e, regions %r'
+                  % (i + 1, a.name, x[3:], float(a.pressure_drop), want_fr,
+                     want_sg, want_gr,
+                     [float(g.pressure_drop) for g in a.region]),
+                  dict(key, mech='table'))
 
 
 def check_static(res, data, P, key, const_props, gravity):
@@ -312,6 +365,11 @@ def run_steps(case, res):
     grids = []
     if not P['types']['a'].get('use_low_fidelity_model'):
         grids = add_grids(rng, P, 'a', dyadic)
+    thin = None
+    if rng.random() < 0.2:
+        # a top region that gets the last axial step only
+        thin = wl.thin_top_region(rng, P, 'a')
+    feats['thin_top'] = thin
     key = {'gravity': gravity, 'dyadic': dyadic, 'n_grid': len(grids)}
     P['setup'].pop('axial_mesh_size', None)
     units = pick_units(rng, 0.3)
@@ -347,6 +405,7 @@ def run_steps(case, res):
     res.tag('gravity=%s' % gravity)
     res.tag('n_grid=%d' % len(grids))
     res.tag('regions=%d' % len(feats.get('regions') or []))
+    res.tag('thin_top_region=%s' % thin)
     if base[0]['total'] > 0 and ncmp >= 2:
         res.nontrivial(repr((feats['nr'], feats['corr'], len(grids), gravity,
                              feats.get('regions'), dyadic)))
